@@ -35,7 +35,7 @@ META = dict(
          "countdown rule, frozen while asleep. Every valid array over <= 5 trees is replayed into mj_wakeIsland, "
          "mj_sleepCycle, mj_updateSleep; every transition of the 2-tree (real MINAWAKE) and 3-tree (engine_sleep.c "
          "compiled with MINAWAKE=1) graphs and simulated 5-tree behaviours are replayed phase by phase into mj_wake, "
-         "mj_wakeCollision, mj_wakeEquality, mj_sleep. Real simulations (11 scenario families, seeded perturbations "
+         "mj_wakeCollision, mj_wakeEquality, mj_sleep. Real simulations (13 scenario families, seeded perturbations "
          "of qpos/qvel/xfrc/qfrc/mocap/eq_active) are logged after every mj_step and accepted by TLC only if "
          "SleepTrace.tla explains each step, sleeping trees kept their qpos bits and zero qvel, island ids agree and "
          "a sleep-disabled twin agrees bitwise whenever no tree is asleep.",
@@ -91,11 +91,10 @@ def part_api(ctx, exe):
                 cmds.append("wb_cycle %s %d" % (b, ev["i"]))
                 exps.append(("cycle", ev, "%d" % ev["ret"]))
             else:
-                # body_awake: world static (-1), tree bodies = flags, mocap body awake (1)
-                nb = ev["n"] + 2
+                body = list(ev["body"])
                 cmds.append("wb_update %s" % b)
-                exps.append(("update", ev, "%d %s %d %d %s" % (ev["n"], csv(ev["awake"]), nb, ev["n"],
-                                                               csv([-1] + list(ev["awake"]) + [1]))))
+                exps.append(("update", ev, "%d %s %d %d %s" % (ev["n"], csv(ev["awake"]), sum(1 for x in body if x != 0),
+                                                               ev["n"], csv(body))))
     finally:
         cleanup()
     if len(cmds) < 1000:
@@ -122,6 +121,9 @@ def part_api(ctx, exe):
             cls = "engine-error"
         elif "GUARD" in got:
             cls = "out-of-bounds-write"
+        elif kind == "update":
+            w, g = want.split(), got.split()
+            cls = ("tree_awake-flags" if w[:2] != g[:2] else "body_awake-classification" if w[4:] != g[4:] else "awake-counters")
         elif got.split()[0] != want.split()[0]:
             cls = "return-value"
         else:
@@ -141,8 +143,8 @@ CFG_CONST = {      # constants of the configurations, as the harness needs them 
     "Sleep_Graph": dict(nt=3, eqs=[(0, 1), (1, 2)], never=[], disable=0, m1=True),
     "Sleep_NoIsl": dict(nt=3, eqs=[(0, 1), (1, -1)], never=[], disable=DSBL_ISLAND, m1=True),
     "Sleep_Real2": dict(nt=2, eqs=[(0, 1)], never=[], disable=0, m1=False),
-    "Sleep_Sim": dict(nt=5, eqs=[(1, 2), (0, 1), (3, -2), (2, -1)], never=[3], disable=0, m1=False),
-    "Sleep_SimM1": dict(nt=5, eqs=[(1, 2), (0, 1), (3, -2), (2, -1)], never=[3], disable=0, m1=True),
+    "Sleep_Sim": dict(nt=5, eqs=[(1, 2), (0, 1), (3, -2), (2, -1), (4, -4)], never=[3], disable=0, m1=False),
+    "Sleep_SimM1": dict(nt=5, eqs=[(1, 2), (0, 1), (3, -2), (2, -1), (4, -4)], never=[3], disable=0, m1=True),
 }
 
 
@@ -163,7 +165,7 @@ def check_cfg_consts(name):
             raise Machinery("Sleep.tla: definition %s not found" % m.group(2))
         return d.group(1).strip()
     def val(text):
-        text = text.replace("Mocap", "-2").replace("World", "-1")
+        text = text.replace("Carried2", "-4").replace("Carried", "-3").replace("Mocap", "-2").replace("World", "-1")
         return tlc.parse_value(text)
     if int(const("NT")) != c["nt"] or (const("MINAWAKE") == "1") != c["m1"]:
         raise Machinery("%s: NT/MINAWAKE differ from checks/c18.py" % name)
@@ -432,9 +434,20 @@ def random_perturbations(s, rng, nsteps, first, every, kinds=("qpos", "qvel", "x
         step += rng.randrange(every // 2, every + every // 2 + 1)
 
 
+def control_scenario():
+    """fixed (seed-independent) scenario the negative controls are cut from: four separate boxes fall asleep one by
+    one; at step 45 the user lifts the sleeping tree 1 (nothing else can wake it), at step 60 pushes tree 2"""
+    s = Scn("control")
+    for i in range(4):
+        s.free("c%d" % i, (i * 0.7, 0, 0.101), BOX)
+    s.p_qpos(45, 1, k=2, delta=0.03)
+    s.p_qvel(60, 2, k=0, val=0.4)
+    return s, 80
+
+
 def scenarios(seed, quick):
-    """list of (Scn, nsteps)"""
-    out = []
+    """list of (Scn, nsteps); the first one is the fixed control scenario"""
+    out = [control_scenario()]
     reps = 1 if quick else 3
     for rep in range(reps):
         rng = random.Random(seed * 1000 + rep)
@@ -488,6 +501,32 @@ def scenarios(seed, quick):
                 s.at(st, "set 0 eq_active 0 1")
             else:
                 s.at(st, "set 0 eq_active 0 0")
+        out.append((s, n1))
+        # 4b. the geoms sit on a jointless CHILD and GRANDCHILD of the mocap body (bodies carried by a mocap body count
+        #     as awake): moved while everything is awake (twin comparison), then onto sleeping boxes, then welded
+        s = Scn("mocapchild")
+        s.free("a", (0, 0, 0.101), BOX)
+        s.free("b", (0.6, 0, 0.101), BOX)
+        s.free("c", (1.2, 0, 0.101), SPH)
+        s.free("d", (0, 0.9, 0.101), BOX)
+        s.lines.append("body name=m pos=0,0,1.5 mocap=1")
+        s.lines.append("body name=pad parent=m pos=0,0,-0.3")
+        s.lines.append("geom body=pad type=6 size=0.1,0.1,0.1")
+        s.lines.append("body name=tip parent=pad pos=0,0.4,0")
+        s.lines.append("geom body=tip type=2 size=0.1")
+        s.mocap.append(s.nbody)
+        s.nbody += 3
+        s.lines.append("equality name=wc type=0 objtype=1 name1=c name2=pad active=0 data=0,0,0.3")
+        s.neq = 1
+        s.at(3, "setv 0 mocap_pos 0.05,%r,1.45" % jit())
+        s.at(7, "setv 0 mocap_pos 0,0,1.5")
+        k0 = 60 + 10 * rep
+        s.at(k0, "setv 0 mocap_pos 0,0,0.58")                 # the child's box comes down on sleeping box a
+        s.at(k0 + 40, "setv 0 mocap_pos 0,0,1.5")
+        s.at(k0 + 90, "setv 0 mocap_pos 0.6,-0.4,0.58")       # the grandchild's sphere comes down on sleeping box b
+        s.at(k0 + 130, "setv 0 mocap_pos 0,0,1.5")
+        s.at(k0 + 170, "set 0 eq_active 0 1")                 # sleeping sphere c connected to the carried child body
+        s.at(k0 + 210, "set 0 eq_active 0 0")
         out.append((s, n1))
         # 5. a sphere shot into a sleeping box: wake on touch
         s = Scn("impact")
@@ -660,7 +699,8 @@ def validate(ctx, traces_by_nt, tag, record=True, timeout=1500):
         if record:
             ctx.tlc_ok(res, "SleepTrace(%s,NT=%d)" % (tag, nt))
         why = {}
-        for m in re.finditer(r'<<"WHY", (\d+), \{([^}]*)\}>>', res.out):
+        # TLC wraps long values over several lines: the pattern must not depend on the layout
+        for m in re.finditer(r'<<\s*"WHY",\s*(\d+),\s*\{([^}]*)\}\s*>>', res.out, re.S):
             why[int(m.group(1))] = sorted(x.strip().strip('"') for x in m.group(2).split(",") if x.strip())
         if len(v) != len(items):
             raise Machinery("SleepTrace printed %d verdicts for %d traces\n%s" % (len(v), len(items), res.out[-2000:]))
@@ -711,6 +751,8 @@ def part_traces(ctx, exe):
 
     def add_ctl(name, clause, make):
         for ck, (cs, chdr, csteps) in sorted(keyed.items()):
+            if cs.name != "control":
+                continue
             got = make(csteps)
             if got is not None:
                 i, steps2 = got
